@@ -27,6 +27,7 @@ type Params struct {
 	MinEvents, MaxEvents int
 	Forks                ForkMode
 	NonMaxFrames         bool // allow a low rate of accepted but non-maximal claimed frames
+	LongEpochs           bool // with a single validator, sometimes generate epochs of ~300 events (> 256 decided frames)
 }
 
 // Info describes what the generator produced (for class counters).
@@ -132,6 +133,9 @@ func GenDAG(t *rapid.T, epoch uint32, ids []idx.ValidatorID, weights []pos.Weigh
 	nEvents := rapid.IntRange(p.MinEvents, p.MaxEvents).Draw(t, "nEvents")
 	if nEvents < 6*n && 6*n <= p.MaxEvents {
 		nEvents = 6 * n // enough events for a few frames
+	}
+	if p.LongEpochs && n == 1 && rapid.Bool().Draw(t, "longEpoch") {
+		nEvents = rapid.IntRange(270, 330).Draw(t, "longEpochEvents")
 	}
 	ref := graphref.New(epoch, ids, weights, nEvents+8)
 	var info Info
